@@ -176,6 +176,12 @@ pub fn check(case: &C08Case) -> CaseOutcome
                 plans.push(format!("short:{}", t.k));
             }
         }
+        // stop requests while a temporary file exists: the run still "exits normally", so clause (c) applies
+        for t in &wp
+        {
+            plans.push(format!("sig:{}:15", t.k));
+            plans.push(format!("sig:{}:{};sig:{}:{}", t.k, if t.k % 2 == 0 { 15 } else { 2 }, t.k + 1, if t.k % 2 == 0 { 2 } else { 15 }));
+        }
         for m in &case.multi
         {
             let mut parts: Vec<String> = Vec::new();
@@ -206,7 +212,7 @@ pub fn check(case: &C08Case) -> CaseOutcome
     {
         let fr = fault_run(&tree, false, Some(plan.clone()), None);
         o.evals += 1;
-        o.class(if plan.contains(';') { "plan-multi-fault" } else if plan.starts_with("short") { "plan-short-write" } else { "plan-single-fault" });
+        o.class(if plan.starts_with("sig") { "plan-stop-signal-on-write-path" } else if plan.contains(';') { "plan-multi-fault" } else if plan.starts_with("short") { "plan-short-write" } else { "plan-single-fault" });
         judge(&mut o, &tree, &files, &fr, plan, false, &mut seen);
         // non-trivial: the failure hit one file while another file was updated
         let updated_some = files.iter().any(|(rel, orig)| fr.after.get(rel).map(|n| n != orig).unwrap_or(false));
@@ -268,7 +274,7 @@ pub fn run(env: &Env, rec: &Recorder) -> (String, Vec<&'static str>)
 {
     pbt_opts(env, rec, "faults", env.cases(120, 4000), 40, &strategy, &check);
     (
-        "trees of 2-6 small source files (subset needing insertions), both styles, cache on/off; per tree ALL single faults on the write path (temporary-file creation, every write incl. the final flush, the rename; each applicable errno, and short writes) plus up to 10 generated 2-3-fault plans, each on a fresh copy, plus (1 in 3 trees) a real cross-filesystem TMPDIR (project on tmpfs, TMPDIR on ext4) with no injection. Oracle: write-path failure => exit != 0; exit 0 => printed count = tokens in the files and a following fault-free --check passes; normal exit without injected unlink failure => no breadlog-*.tmp left in TMPDIR. Non-trivial = distinct (tree, plan) where the failure left one file untouched while another file was updated".to_string(),
+        "trees of 2-6 small source files (subset needing insertions), both styles, cache on/off; per tree ALL single faults on the write path (temporary-file creation, every write incl. the final flush, the rename; each applicable errno, and short writes) plus up to 10 generated 2-3-fault plans, plus one and two stop signals (SIGTERM/SIGINT) at every write-path operation, each on a fresh copy, plus (1 in 3 trees) a real cross-filesystem TMPDIR (project on tmpfs, TMPDIR on ext4) with no injection. Oracle: write-path failure => exit != 0; exit 0 => printed count = tokens in the files and a following fault-free --check passes; normal exit without injected unlink failure => no breadlog-*.tmp left in TMPDIR. Non-trivial = distinct (tree, plan) where the failure left one file untouched while another file was updated".to_string(),
         vec!["faults injected at libc call boundaries via LD_PRELOAD", "the cross-filesystem case relies on /dev/shm (tmpfs) and /verif/.build (disk) being different filesystems; the evidence counts how often rename really failed with EXDEV"],
     )
 }
